@@ -25,6 +25,7 @@ func c05(c *Ctx) {
 	c05R4(c)
 	c05R5(c)
 	c05R6(c)
+	c05R7(c)
 }
 
 // R1: ADD is acknowledged only after the record is on disk.
@@ -231,6 +232,13 @@ func c05R3(c *Ctx) {
 		q := NewPathQuery(p, fn, nil)
 		w := q.Escapes(nil, isExactly(mem), isExactly(upd), nil)
 		c.Check(w == nil, "C05.R3", "DiskStorage."+m+": disk before memory", p.Pos(mem), fn.Key(), "must-pass: entry → db.Update → memory."+m, "path: "+p.describePath(w))
+		// and nothing is acknowledged without a transaction (no cached / short-cut success)
+		sig := fn.Obj.Type().(*types.Signature)
+		w2 := q.Escapes(nil, nil, isExactly(upd), func(ret *ast.ReturnStmt) bool {
+			ok, known := isSuccessReturn(info, sig, ret)
+			return known && !ok
+		})
+		c.Check(w2 == nil, "C05.R3", "DiskStorage."+m+": every acknowledged call committed a transaction", p.Pos(fn.Decl), fn.Key(), "must-pass: entry → db.Update → success return", "path: "+p.describePath(w2))
 		_, lhs := assignedFromCall(fn, upd)
 		if len(lhs) == 1 && lhs[0] != nil {
 			errObj := lhs[0]
@@ -592,4 +600,46 @@ func c05R6(c *Ctx) {
 		c.Check(written[f], "C05.R6", "ResourceItem."+f+" read ⇒ written by ToStore", "", strings.Join(uniq(read[f]), ","), "field is set by some ToStore()", "read but never written when a record is created")
 	}
 	c.Floor("C05.R6", "ResourceItem fields read by restart / release code", 4, len(names))
+}
+
+// R5: what the daemon writes into a record is what the restart path understands.
+func c05R7(c *Ctx) {
+	p := c.P
+	c.Rule("C05.R7", "every resource type stored in a pod record is one that Local.load restores on restart (a record written under another type survives in the database but its addresses are handed out again)")
+	load := p.Func(eniPkg, "Local.load")
+	typeF := p.Field("types/daemon", "ResourceItem", "Type")
+	if load == nil || typeF == nil {
+		c.Unres("C05.R7", "Local.load / ResourceItem.Type", "not found")
+		return
+	}
+	restored := map[string]bool{}
+	ast.Inspect(load.Decl.Body, func(nd ast.Node) bool {
+		if o, ok := identObjSel(load.Info(), asExpr(nd)).(*types.Const); ok && strings.HasPrefix(o.Name(), "ResourceType") {
+			restored[o.Name()] = true
+		}
+		return true
+	})
+	c.Floor("C05.R7", "resource types Local.load restores", 1, len(restored))
+	n := 0
+	// the record path: the ToStore implementations of the pool backends and the daemon itself
+	scope := append(append([]*FuncInfo{}, p.FuncsInPkg(eniPkg)...), p.FuncsInPkg(daemonPkg)...)
+	for _, st := range p.StoresTo(scope, typeF) {
+		if st.RHS == nil {
+			continue
+		}
+		n++
+		o, _ := identObjSel(st.Fn.Info(), st.RHS).(*types.Const)
+		key := "record type written in " + st.Fn.Key()
+		if o == nil {
+			// a copy of another item's type is as good as that item
+			if sel, ok := ast.Unparen(st.RHS).(*ast.SelectorExpr); ok && sel.Sel.Name == "Type" {
+				c.OK("C05.R7", key, p.Pos(st.Node), st.Fn.Key(), "copied from a stored item")
+				continue
+			}
+			c.Undec("C05.R7", key, p.Pos(st.Node), st.Fn.Key(), "Type: <ResourceType constant>", "not a constant: "+exprString(st.RHS))
+			continue
+		}
+		c.Check(restored[o.Name()], "C05.R7", key, p.Pos(st.Node), st.Fn.Key(), "Type ∈ "+strings.Join(keysOf(restored), ", "), o.Name()+" is not restored by Local.load")
+	}
+	c.Floor("C05.R7", "writes of ResourceItem.Type", 1, n)
 }
